@@ -23,7 +23,9 @@ Definition rstore := store rcmd rresp rsm N.
 
 (** * Pipeline unit cases *)
 Inductive ustep :=
+| USeq (n : N)                      (* the store has already handed out [n] request ids (counter preset) *)
 | UNext (term : N) (obs : N)
+| UOther (term : N) (obs : N)        (* ANOTHER store's pipeline (fresh at the start of the case) hands out an id in [term] *)
 | UReg (region id tok : N) (obs : reg_out)
 | URem (region id : N)
 | UApply (es : list rentry) (obs : apply_out) (seen : list (N * option rresp)).  (* applier calls: uid, answer *)
@@ -55,6 +57,9 @@ Fixpoint urun (steps : list ustep) (s : rstore) : rstore * bool :=
   | st :: steps' =>
       let '(s1, ok) :=
         match st with
+        | USeq n =>
+            ({| s_pipe := {| p_seq := n mod 2^64; p_props := p_props (s_pipe s) |}; s_sm := s_sm s; s_log := s_log s; s_done := s_done s; s_mark := s_mark s |}, true)
+        | UOther _ _ => (s, true)
         | UNext term obs =>
             let '(id, p) := next_id term (s_pipe s) in
             ({| s_pipe := p; s_sm := s_sm s; s_log := s_log s; s_done := s_done s; s_mark := s_mark s |}, id =? obs)
@@ -71,6 +76,24 @@ Fixpoint urun (steps : list ustep) (s : rstore) : rstore * bool :=
       let '(s2, ok') := urun steps' s1 in
       (s2, ok && ok')
   end.
+
+(** the other store's ids: its counter starts at 0 *)
+Fixpoint others_ok (steps : list ustep) (p : pipe N) : bool :=
+  match steps with
+  | [] => true
+  | UOther term obs :: steps' => let '(id, p') := next_id term p in (id =? obs) && others_ok steps' p'
+  | _ :: steps' => others_ok steps' p
+  end.
+(** Judged on the observations only (what C22 needs from request ids): a term
+    has one leader, so two stores hand out ids in DIFFERENT terms; such ids must
+    differ, or an entry of one store completes the other store's waiter. *)
+Definition ids_of (steps : list ustep) : list (N * N) :=
+  flat_map (fun st => match st with UNext t id => [(t, id)] | _ => [] end) steps.
+Definition other_ids_of (steps : list ustep) : list (N * N) :=
+  flat_map (fun st => match st with UOther t id => [(t, id)] | _ => [] end) steps.
+Definition ids_collide (steps : list ustep) : bool :=
+  existsb (fun a => existsb (fun b => (fst a <? 2^32) && (fst b <? 2^32) && negb (fst a =? fst b) && (snd a =? snd b))
+                            (other_ids_of steps)) (ids_of steps).
 
 (** final poll: for every token, what its waiter received (None = nothing) *)
 Definition polled_ok (s : rstore) (final : list (N * option (option rresp))) : bool :=
@@ -224,7 +247,7 @@ Definition check (c : case) : verdict :=
   match c with
   | CPipe steps final =>
       let '(s, ok) := urun steps (store_init ([] : rsm)) in
-      mk_verdict (negb (ok && polled_ok s final)) false 0
+      mk_verdict (negb (ok && others_ok steps pipe_init && polled_ok s final)) (ids_collide steps) 0
   | CCluster prop evs =>
       let r := replay evs in
       let mism := negb (r_ok r && reads_consistent evs && returns_predicted evs (r_g r) &&
